@@ -373,7 +373,13 @@ def enforce(A: spmatrix,
     """
     b, x, I, D = _init_bc(A, b, x, I, D)
 
-    Aout = A if overwrite else A.copy()
+    if A.format != 'csr':
+        # rows are zeroed through the CSR index arrays
+        if overwrite:
+            raise ValueError("overwrite=True requires a CSR matrix.")
+        Aout = A.tocsr()
+    else:
+        Aout = A if overwrite else A.copy()
 
     # set rows on lhs to zero
     start = Aout.indptr[D]
